@@ -406,6 +406,12 @@ func capCase(prop string, hds []string, body string, desc string, keepPAI bool) 
 		lines = append(lines, hd+body)
 	}
 	return Case{Prop: prop, Desc: desc, Lines: lines, Check: func(out []string) string {
+		// the "more" indication and the number of stored elements follow from the count and the capacity alone
+		for k := range out {
+			if msg := moreIndication(hds[k], out[k]); msg != "" {
+				return msg
+			}
+		}
 		ref := splitOut(out[len(out)-1])
 		for k := 0; k < len(out)-1; k++ {
 			cur := splitOut(out[k])
@@ -489,4 +495,60 @@ func safetyCase(prop, line string, calls []pcall, bufLens []int, desc string) Ca
 		}
 		return ""
 	}}
+}
+
+var moreCtRe = regexp.MustCompile(`contacts=\{N=(\d+) HNo=\d+ max=\d+ min=\d+ lh=\S+ vno=(\d+) more=(\d)`)
+var morePaRe = regexp.MustCompile(`pais=\{N=(\d+) HNo=\d+ lh=\S+ vno=(\d+) more=(\d)`)
+var moreUpRe = regexp.MustCompile(`N=(\d+) types=\d+ pno=(\d+) more=(\d)`)
+var moreUhRe = regexp.MustCompile(`N=(\d+) hno=(\d+) more=(\d)`)
+
+// moreIndication: More() <=> N > capacity, and VNo() / PNo() / HNo() = min(N, capacity)
+func moreIndication(hd, out string) string {
+	f := strings.Fields(strings.SplitN(hd, "|", 2)[0])
+	if len(f) == 0 {
+		return ""
+	}
+	chk := func(what string, re *regexp.Regexp, capac int) string {
+		for _, m := range re.FindAllStringSubmatch(out, -1) {
+			n, _ := strconv.Atoi(m[1])
+			st, _ := strconv.Atoi(m[2])
+			want := n
+			if want > capac {
+				want = capac
+			}
+			if st != want || (m[3] == "1") != (n > capac) {
+				return fmt.Sprintf("%s: count %d, capacity %d: stored %d (expected %d), more=%s (expected %v) [%s]", what, n, capac, st, want, m[3], n > capac, hd)
+			}
+		}
+		return ""
+	}
+	capOf := func(x string, dflt int) int {
+		if x == "-" {
+			return dflt
+		}
+		v, _ := strconv.Atoi(x)
+		return v
+	}
+	switch f[0] {
+	case "msg":
+		if len(f) >= 3 {
+			if e := chk("contacts", moreCtRe, capOf(f[2], 10)); e != "" {
+				return e
+			}
+			return chk("identities", morePaRe, 2)
+		}
+	case "contacts":
+		if len(f) >= 2 {
+			return chk("contacts", regexp.MustCompile(`^.*?N=(\d+) HNo=\d+ max=\d+ min=\d+ lh=\S+ vno=(\d+) more=(\d)`), capOf(f[1], 0))
+		}
+	case "uriparams":
+		if len(f) >= 2 {
+			return chk("URI parameters", moreUpRe, capOf(f[1], 0))
+		}
+	case "urihdrs":
+		if len(f) >= 2 {
+			return chk("URI headers", moreUhRe, capOf(f[1], 0))
+		}
+	}
+	return ""
 }
